@@ -634,7 +634,7 @@ func c16(g *Gen) {
 			// what an earlier, longer output left behind (excluded from loading by its build constraint)
 			for _, gp := range prog {
 				os.WriteFile(filepath.Join(src, gp.Path, "zz_generated.deepcopy.go"),
-					[]byte("// +build !ignore_autogenerated\n\npackage "+gp.Name+"\n\n"+strings.Repeat("var ZZstale = 0 // left over from an earlier, longer output\n", 3000)), 0644)
+					[]byte("// +build !ignore_autogenerated\n\npackage "+gp.Name+"\n\n// ZZSTALE\n"+strings.Repeat("// stale filler, left over from an earlier, longer output\n", 3000)), 0644)
 			}
 			cls = append(cls, "regenerated-over-longer-output")
 		}
@@ -647,6 +647,23 @@ func c16(g *Gen) {
 		if err := a.Execute(dcgen.NameSystems(), dcgen.DefaultNameSystem(), dcgen.Packages); err != nil {
 			g.Emit("C16.generates!", list(atom(prog[len(prog)-1].Src), atom(err.Error())), boolS(false), append(cls, "generate")...)
 			continue
+		}
+		if i%3 == 1 {
+			// a package the tool writes nothing for keeps its old file (not the tool's business); one it
+			// wrote for must hold the new output only
+			var leftovers []string
+			for _, gp := range prog {
+				f := filepath.Join(src, gp.Path, "zz_generated.deepcopy.go")
+				b, err := os.ReadFile(f)
+				switch {
+				case err != nil:
+				case strings.Contains(string(b), "// ZZSTALE"):
+					os.Remove(f) // untouched: nothing was generated for this package
+				case strings.Contains(string(b), "stale filler"):
+					leftovers = append(leftovers, gp.Path)
+				}
+			}
+			g.Emit("C16.regenerated!", list(atom(prog[len(prog)-1].Src[:min(len(prog[len(prog)-1].Src), 300)]), atoms(leftovers)), boolS(len(leftovers) == 0), append(cls, "regenerated-file-holds-only-the-new-output")...)
 		}
 		// the driver
 		var imports, tests strings.Builder
